@@ -176,7 +176,19 @@ func findValueAtPath(inputValue cue.Value, cuePath CuePath) (outputValue cue.Val
 			thisValue = outputValue.LookupPath(cue.MakePath(selector.Optional()))
 			if err = thisValue.Err(); err != nil {
 				thisValue = outputValue.LookupPath(cue.MakePath(cue.AnyIndex))
-				if err = thisValue.Err(); err != nil {
+				if err = thisValue.Err(); err == nil {
+					// `[...T]`: the key names a field of the element type T
+					if thisValue.IncompleteKind() == cue.TopKind {
+						return thisValue, nil
+					}
+
+					elem := thisValue
+					selector = getSelectorForField(elem, cp)
+					thisValue = elem.LookupPath(cue.MakePath(selector))
+					if thisValue.Err() != nil {
+						thisValue = elem.LookupPath(cue.MakePath(selector.Optional()))
+					}
+				} else {
 					outputValueKind := outputValue.IncompleteKind()
 
 					if outputValueKind == cue.TopKind {
